@@ -812,9 +812,10 @@ package keyvalue
 //@   modifies world()
 //@   ensures "gate" [C04] implies(!VP(name), info == nil && pathErr(err, "stat", name) && errIs(err, hackpadfs.ErrInvalid) && innerErr(err) == hackpadfs.ErrInvalid && world() == old(world()))
 //@   ensures "typed" [C05] implies(err != nil, info == nil && pathErr(err, "stat", name))
-//@   ensures "mem-hit" implies(VP(name) && isMem(fs) && kvHas(fs, name), err == nil && isType(info, fileInfo) && infoOf(info).Path == name && isType(infoOf(info).Record, *fileData) &&
-//@                     infoRec(info) != nil && fresh(infoRec(info)) && infoRec(info).record == kvRec(fs, name) && infoRec(info).modeOverride == nil && infoRec(info).modTimeOverride == 0 &&
+//@   ensures "ok" implies(err == nil, isType(info, fileInfo) && infoOf(info).Path == name && isType(infoOf(info).Record, *fileData) &&
+//@                     infoRec(info) != nil && fresh(infoRec(info)) && roInv(infoRec(info).runOnceFileRecord) && infoRec(info).modeOverride == nil && infoRec(info).modTimeOverride == 0 &&
 //@                     !oncedone(infoRec(info).modeOnce) && !oncedone(infoRec(info).modTimeOnce) && infoRec(info).dataDone == 0)
+//@   ensures "mem-hit" implies(VP(name) && isMem(fs) && kvHas(fs, name), err == nil && infoRec(info).record == kvRec(fs, name))
 //@   ensures "mem-miss" implies(VP(name) && isMem(fs) && !kvHas(fs, name), errIs(err, hackpadfs.ErrNotExist))
 //@   ensures "mem-world" implies(isMem(fs), world() == old(world()))
 //@   ensures "serial" [C14] implies(VP(name) && isSerial(fs), iff(err == nil, old(storeGetErr(fsStore(fs), name)) == nil) && world() == old(storeGetW(fsStore(fs), name)) &&
@@ -896,6 +897,8 @@ package keyvalue
 //@   props C01 C04 C05 C14 C03
 //@   requires fsOK(fs)
 //@   use dirValid(name)
+//@   dispatch hackpadfs.FileInfo fileInfo
+//@   dispatch FileRecord *fileData
 //@   modifies world(), mapOf(ms(fs).records)
 //@   ensures "gate" [C04] implies(!VP(name), isPathError(err) && pathOf(err) == name && errIs(err, hackpadfs.ErrInvalid) && world() == old(world()) && implies(isMem(fs), memSame(fs)))
 //@   ensures "typed" [C05] implies(err != nil, isPathError(err) && pathOf(err) == name)
